@@ -5,6 +5,9 @@
 #include "vf/vf.h"
 #include "specs/netaddr_spec.h"
 #include "src/net/utils.c"
+#ifdef VF_REPLAY	/* native replay links the callees of the out-of-scope functions */
+#include "src/net/socket_address.c"
+#endif
 
 void harness(void) {
 	VF_NONDET(size_t, l4);		/* IPv4 prefix length */
